@@ -42,8 +42,8 @@ TECHNIQUE = 'runtime monitoring: differential oracle over recorded outcomes of a
 
 
 def plan(tier, seed):
-    ndocs = 48 if tier == 'quick' else 1600
-    shards = 12 if tier == 'quick' else 40
+    ndocs = 128 if tier == 'quick' else 1600
+    shards = 16 if tier == 'quick' else 40
     specs = [{'kind': 'gen', 'docs': ndocs // shards, 'gshard': s} for s in range(shards)]
     specs.append({'kind': 'corpus'})
     counts = [0, 1, 3, 255, 256, 257, 512] if tier == 'quick' else [0, 1, 2, 3, 100, 254, 255, 256, 257, 300, 511, 512, 513, 768, 1024]
